@@ -399,6 +399,19 @@ class FnAnalysis:
                            if name not in st['loopdef'] else id(n))
                     self.fan.setdefault(key, []).append((n, inloop))
             return
+        if f in ('copy.deepcopy', 'copy.copy') and n.args:
+            v = self.val(n.args[0], st)
+            if v is not None and 'GEN' in v and (
+                    self.gen_admitted or v == frozenset({'GEN'})) \
+                    and self.is_derived(n.args[0], st):
+                self.reports.append((
+                    'R16.2', n, 'generator copied %s' % U(n.args[0]),
+                    '`%s` copies a value that may be a numpy Generator: the '
+                    'draws are taken from the copy and the generator the '
+                    'caller handed in is not advanced, so the next consumer '
+                    'of the same generator restarts the same stream' % (
+                        norm_stmt(n)[:60])))
+            return
         g = _is_global_draw(n)
         if g:
             if st['globseed']:
